@@ -11,7 +11,7 @@
 //                       the *stored* fields of everything reachable from its slots, tells the model which objects are
 //                       new / which existing object came back (aliasing), and prints the real use_count() of every
 //                       tracked object.  The Lean driver replays this on the protocol model.
-//   W <kind> <seed> <size>   a whole API workload (arith expand calculus parse print matrix poly sets ntheory series
+//   W <kind> <seed> <size>   a whole API workload (arith expand calculus parse print matrix dense densesq poly sets ntheory series
 //                       solve serialize), executed repeatedly; output `delta=<blocks>,<bytes>` = heap growth of a
 //                       measured repetition once all handles died (global operator new/delete and GMP allocator are
 //                       replaced by counting versions below).
@@ -638,7 +638,8 @@ static std::string run_trace(const std::string &body, std::string &oracle)
 
 // ---------------------------------------------------------------- whole workloads
 struct WCount {
-    long calls = 0, exc = 0;
+    long calls = 0, exc = 0, asserts = 0;
+    std::string first_assert; // a failed SYMENGINE_ASSERT on valid arguments = would-be undefined behaviour
 };
 static B rexpr(Rng &r, const std::vector<B> &syms, int depth)
 {
@@ -686,7 +687,11 @@ static B rpoly(Rng &r, const B &x, int deg)
 #define TRY(...)                                                                                                       \
     try {                                                                                                              \
         wc.calls++;                                                                                                    \
-        __VA_ARGS__;                                                                                                       \
+        __VA_ARGS__;                                                                                                   \
+    } catch (const SymEngine::VerifAssertError &ae_) {                                                                 \
+        wc.asserts++;                                                                                                  \
+        if (wc.first_assert.empty())                                                                                   \
+            wc.first_assert = ae_.what();                                                                              \
     } catch (const std::exception &) {                                                                                 \
         wc.exc++;                                                                                                      \
     }
@@ -738,6 +743,91 @@ static void workload(const std::string &kind, uint64_t seed, int size, WCount &w
             }
             TRY(CSRMatrix S = CSRMatrix::from_coo(n, n, ri, ci, xs); CSRMatrix T(n, n); S.transpose(T);
                 DenseMatrix E(n, n); S.mul_matrix(Bm, E); (void)S.get(0, 0));
+        } else if (kind == "dense" || kind == "densesq") {
+            // dense matrices whose shape forces the pivoting paths: leading zero columns, zero rows, repeated rows
+            // (rank deficient), the zero matrix; rectangular for the eliminations, square for LU / inverse / solve
+            bool sq = kind == "densesq";
+            unsigned nr = 1 + (unsigned)r.below(4), nc = sq ? nr : 1 + (unsigned)r.below(5);
+            unsigned zc = (unsigned)r.below(3);          // number of leading zero columns
+            bool zrow = r.coin(1, 3), dup = r.coin(1, 3), allz = r.coin(1, 10), symb = r.coin(1, 5) && nr <= 3;
+            unsigned zr = (unsigned)r.below(nr);
+            vec_basic v(nr * nc);
+            for (unsigned i = 0; i < nr; i++)
+                for (unsigned j = 0; j < nc; j++) {
+                    B e = integer(r.coin(1, 4) ? 0 : r.range(-3, 4));
+                    if (symb && r.coin(1, 6))
+                        e = r.coin() ? B(x) : add(x, integer(r.range(1, 2)));
+                    if (allz || j < zc || (zrow && i == zr))
+                        e = zero;
+                    v[i * nc + j] = e;
+                }
+            if (dup && nr >= 2)
+                for (unsigned j = 0; j < nc; j++)
+                    v[(nr - 1) * nc + j] = v[j];
+            DenseMatrix A(nr, nc, v);
+            for (int nl = 0; nl < 2; nl++) {
+                TRY(DenseMatrix R(nr, nc); vec_uint piv; reduced_row_echelon_form(A, R, piv, nl == 1);
+                    (void)R.__str__(); (void)piv.size());
+                // aliasing: output == input
+                TRY(DenseMatrix C(nr, nc, v); vec_uint piv; reduced_row_echelon_form(C, C, piv, nl == 1);
+                    (void)C.__str__());
+            }
+            TRY(DenseMatrix R(nr, nc); permutelist pl; pivoted_gaussian_elimination(A, R, pl); (void)R.__str__());
+            TRY(DenseMatrix R(nr, nc); permutelist pl; pivoted_fraction_free_gaussian_elimination(A, R, pl);
+                (void)R.__str__());
+            TRY(DenseMatrix R(nr, nc); permutelist pl; pivoted_gauss_jordan_elimination(A, R, pl); (void)R.__str__());
+            TRY(DenseMatrix R(nr, nc); permutelist pl; pivoted_fraction_free_gauss_jordan_elimination(A, R, pl);
+                (void)R.__str__());
+            TRY(DenseMatrix C(nr, nc, v); permutelist pl; pivoted_fraction_free_gauss_jordan_elimination(C, C, pl);
+                (void)C.__str__());
+            TRY((void)A.rank()); // NotImplemented for DenseMatrix at present
+            TRY((void)A.is_zero(); (void)A.is_diagonal(); (void)A.is_symmetric());
+            // is_lower()/is_upper() index columns with nrows(): out of bounds for nrows > ncols (reported defect);
+            // square only until the fix is in
+            if (nr == nc)
+                TRY((void)A.is_lower(); (void)A.is_upper());
+            TRY(DenseMatrix T(nc, nr); A.transpose(T); DenseMatrix P(nr, nr); A.mul_matrix(T, P); (void)P.det();
+                (void)P.is_symmetric());
+            if (sq) {
+                unsigned n = nr;
+                vec_basic bv;
+                for (unsigned i = 0; i < n * 2; i++)
+                    bv.push_back(integer(r.range(-2, 3)));
+                DenseMatrix rhs(n, 2, bv);
+                TRY(DenseMatrix L(n, n), U(n, n); LU(A, L, U); (void)U.__str__());
+                TRY(DenseMatrix M(n, n); permutelist pl; pivoted_LU(A, M, pl); (void)M.__str__());
+                TRY(DenseMatrix L(n, n), U(n, n); permutelist pl; pivoted_LU(A, L, U, pl); (void)L.__str__());
+                TRY(DenseMatrix M(n, n); fraction_free_LU(A, M); (void)M.__str__());
+                TRY(DenseMatrix L(n, n), D(n, n), U(n, n); fraction_free_LDU(A, L, D, U); (void)D.__str__());
+                TRY(DenseMatrix R(n, n); fraction_free_gaussian_elimination(A, R); (void)R.__str__());
+                TRY(DenseMatrix R(n, n); fraction_free_gauss_jordan_elimination(A, R); (void)R.__str__());
+                TRY(DenseMatrix I(n, n); inverse_fraction_free_LU(A, I); (void)I.__str__());
+                TRY(DenseMatrix I(n, n); inverse_LU(A, I); (void)I.__str__());
+                TRY(DenseMatrix I(n, n); inverse_pivoted_LU(A, I); (void)I.__str__());
+                TRY(DenseMatrix I(n, n); inverse_gauss_jordan(A, I); (void)I.__str__());
+                TRY(DenseMatrix I(n, n); A.inv(I); (void)I.__str__());
+                TRY((void)det_bareis(A); (void)det_berkowitz(A); (void)A.det(); (void)A.trace());
+                TRY(DenseMatrix P(n + 1, 1); char_poly(A, P); (void)P.__str__());
+                TRY(DenseMatrix X(n, 2); LU_solve(A, rhs, X); (void)X.__str__());
+                TRY(DenseMatrix X(n, 2); pivoted_LU_solve(A, rhs, X); (void)X.__str__());
+                TRY(DenseMatrix X(n, 2); fraction_free_LU_solve(A, rhs, X); (void)X.__str__());
+                TRY(DenseMatrix X(n, 2); fraction_free_gauss_jordan_solve(A, rhs, X, true); (void)X.__str__());
+                TRY(DenseMatrix X(n, 2); fraction_free_gauss_jordan_solve(A, rhs, X, false); (void)X.__str__());
+                TRY(DenseMatrix X(n, 2); fraction_free_gaussian_elimination_solve(A, rhs, X); (void)X.__str__());
+                TRY(DenseMatrix X(n, 2); A.LU_solve(rhs, X); (void)X.__str__());
+                // symmetric positive semi-definite input for LDL / cholesky (numeric only: symbolic square roots explode)
+                if (!symb)
+                    TRY(DenseMatrix T(n, n); A.transpose(T); DenseMatrix S(n, n); A.mul_matrix(T, S); DenseMatrix L(n, n),
+                    D(n, n); LDL(S, L, D); DenseMatrix L2(n, n); cholesky(S, L2); DenseMatrix X(n, 2);
+                    LDL_solve(S, rhs, X); (void)X.__str__());
+                if (!symb)
+                    TRY(DenseMatrix Q(n, n), R(n, n); QR(A, Q, R); (void)R.__str__());
+                // aliasing: output is one of the operands
+                TRY(DenseMatrix C(n, n, v), T(n, n, v); mul_dense_dense(C, T, C); mul_dense_dense(C, T, T);
+                    mul_dense_dense(C, C, C); add_dense_dense(C, T, C); add_dense_dense(C, C, C);
+                    C.mul_matrix(C, C); C.add_matrix(T, T); C.elementwise_mul_matrix(C, C);
+                    RCP<const Basic> k = integer(2); C.mul_scalar(k, C); C.add_scalar(k, C); (void)C.__str__());
+            }
         } else if (kind == "poly") {
             std::map<unsigned, integer_class> d1, d2;
             for (unsigned i = 0; i <= 1 + r.below(4); i++) {
@@ -805,11 +895,16 @@ static std::string run_workload(const std::string &kind, uint64_t seed, int size
         if (db == 0 && dy == 0)
             break;
     }
+    // a failed assertion is reported first: the throwing assert hook unwinds through code that was never meant to
+    // be unwound, so heap growth observed together with assertion failures is not evidence of a leak
+    if (wc.asserts && oracle == "ok")
+        oracle = "FAIL:assert:" + kind + " workload: internal assertion failed on valid arguments: " + wc.first_assert;
     if ((db != 0 || dy != 0) && oracle == "ok")
         oracle = "FAIL:leak:" + kind + " workload leaves " + std::to_string(db) + " blocks / " + std::to_string(dy)
                  + " bytes allocated on every repetition";
     stat("workload_calls", wc.calls);
     stat("workload_exceptions", wc.exc);
+    stat("workload_asserts", wc.asserts);
     return "delta=" + std::to_string(db) + "," + std::to_string(dy) + " calls=" + std::to_string(wc.calls)
            + " exc=" + std::to_string(wc.exc);
 }
@@ -927,15 +1022,20 @@ void hx_gen(Rng &r, const std::string &tier)
     emit("T sym:x;sym:y;mul:0,1;int:0;add:2,3;int:2;mul:5,2;add:6,3;drop:2;drop:6", "trace-steal-branch");
     emit("T sym:x;cp:0;as:0,1;as:1,1;mas:0,1;mv:0;rft:2;drop:1;drop:2;drop:3", "trace-handles");
     emit("T sym:x;sym:y;add:0,1;mul:2,2;expand:3;diff:4,0;subs:5,0,1;drop:2;drop:3;drop:4", "trace-chain");
+    // dense pivoting paths get extra weight: many small matrices per line
+    for (int i = 0; i < (th ? 10 : 2); i++) {
+        emit("W dense " + std::to_string(r.below(1000000)) + " " + std::to_string(th ? 60 : 40), "workload-dense");
+        emit("W densesq " + std::to_string(r.below(1000000)) + " " + std::to_string(th ? 40 : 25), "workload-densesq");
+    }
     int nt = th ? 900 : 160;
     for (int i = 0; i < nt; i++) {
         int len = 4 + (int)r.below(th ? 45 : 28);
         emit(gen_trace(r, len), len < 12 ? "trace-short" : (len < 30 ? "trace-medium" : "trace-long"));
     }
-    static const char *kinds[] = {"arith", "expand", "calculus", "parse",  "print", "matrix",    "poly",
-                                  "sets",  "ntheory", "series",  "solve", "eval",  "serialize"};
+    static const char *kinds[] = {"arith", "expand",  "calculus", "parse", "print", "matrix",    "poly", "sets",
+                                  "ntheory", "series", "solve",    "eval",  "serialize", "dense", "densesq"};
     int reps = th ? 12 : 3;
-    for (int k = 0; k < 13; k++)
+    for (int k = 0; k < 15; k++)
         for (int i = 0; i < reps; i++)
             emit(std::string("W ") + kinds[k] + " " + std::to_string(r.below(1000000)) + " "
                      + std::to_string(th ? 12 : 6),
